@@ -32,6 +32,10 @@ type expOp struct {
 type reference struct {
 	known  bool
 	must   bool
+	// refuse: the prefix argument does not denote exactly one bug / comment of the population
+	// (no match, or several): the request must be answered with an error and change nothing
+	refuse      bool
+	refuseClass string
 	newBug bool
 	target string // bug that receives the operations
 	ops    []expOp
@@ -52,21 +56,46 @@ func strList(v any) []string {
 func (meta *Meta) refEffect(c Case, vars map[string]any) reference {
 	in, _ := vars["input"].(map[string]any)
 	shape, _ := c.Args["input"].(map[string]any)
-	tagOf := func(field string) string {
-		l, _ := shape[field].(map[string]any)
-		t, _ := l["$"].(string)
-		return t
-	}
-	valid := in != nil && allValid(c.Args)
-	r := reference{known: true}
-	bugOf := func() (id string, labels []string, closed bool) {
-		switch tagOf("prefix") {
-		case "prefix.full", "prefix.short":
-			return meta.Target, []string{"existing"}, false
-		case "prefix.closed":
-			return meta.Closed, nil, true
+	// validity of everything except the prefix arguments comes from the catalogue; what a prefix
+	// denotes is decided by resolving it over the population, independently of git-bug
+	rest := map[string]any{}
+	for k, v := range shape {
+		if k != "prefix" && k != "targetPrefix" {
+			rest[k] = v
 		}
-		return "", nil, false
+	}
+	valid := in != nil && allValid(rest)
+	r := reference{known: true}
+	refuse := func(n int, sameBug bool) {
+		r.refuse = true
+		switch {
+		case n == 0:
+			r.refuseClass = "no-match-prefix"
+		case sameBug:
+			r.refuseClass = "ambiguous-prefix-same-bug"
+		default:
+			r.refuseClass = "ambiguous-prefix"
+		}
+	}
+	bugOf := func() (id string, labels []string, closed bool) {
+		p, ok := in["prefix"].(string)
+		if !ok {
+			return "", nil, false
+		}
+		ms := meta.resolveBug(p)
+		if len(ms) != 1 {
+			refuse(len(ms), false)
+			return "", nil, false
+		}
+		return ms[0].Id, ms[0].Labels, ms[0].Closed
+	}
+	titleOf := func(id string) string {
+		for _, b := range meta.BugInfos {
+			if b.Id == id {
+				return b.Title
+			}
+		}
+		return ""
 	}
 	files := func() any { return strList(in["files"]) }
 	switch c.Mutation {
@@ -89,11 +118,19 @@ func (meta *Meta) refEffect(c Case, vars map[string]any) reference {
 		}
 	case "editComment":
 		var opId string
-		switch tagOf("targetPrefix") {
-		case "cid.full", "cid.short":
-			r.target, opId = meta.Target, meta.CommentOp
-		case "cid.create":
-			r.target, opId = meta.Target, meta.CreateOp
+		if p, ok := in["targetPrefix"].(string); ok {
+			ms := meta.resolveComment(p)
+			if len(ms) == 1 {
+				r.target, opId = ms[0].Bug, ms[0].Op
+			} else {
+				same := len(ms) > 1
+				for _, x := range ms {
+					if x.Bug != ms[0].Bug {
+						same = false
+					}
+				}
+				refuse(len(ms), same)
+			}
 		}
 		r.must = valid && r.target != ""
 		r.ops = []expOp{{opEditComment, map[string]any{"target": opId, "message": in["message"], "files": files()}}}
@@ -138,14 +175,15 @@ func (meta *Meta) refEffect(c Case, vars map[string]any) reference {
 	case "setTitle":
 		id, _, closed := bugOf()
 		r.target = id
-		was := "target bug"
-		if closed {
-			was = "closed bug"
-		}
-		r.must = valid && id != ""
+		_ = closed
+		was := titleOf(id)
+		r.must = valid && id != "" && in["title"] != was
 		r.ops = []expOp{{opSetTitle, map[string]any{"title": in["title"], "was": was}}}
 	default:
 		return reference{}
+	}
+	if r.refuse {
+		r.must = false
 	}
 	return r
 }
@@ -226,7 +264,11 @@ func (s *server) judgeMutation(c Case, m fieldDef, vars map[string]any, gr gqlRe
 	if !c.User {
 		res.Class = "nouser"
 		if !refused {
-			add("c17.nouser.refused", "answered-without-error:"+c.Mutation, "mutation %s without a user was answered without an error: %s", c.Mutation, clip(string(gr.Data[m.Name])))
+			cls := ""
+			if r := s.meta.refEffect(c, vars); r.refuse {
+				cls = ":" + r.refuseClass
+			}
+			add("c17.nouser.refused", "answered-without-error:"+c.Mutation+cls, "mutation %s without a user was answered without an error: %s", c.Mutation, clip(string(gr.Data[m.Name])))
 		}
 		return
 	}
@@ -236,6 +278,8 @@ func (s *server) judgeMutation(c Case, m fieldDef, vars map[string]any, gr gqlRe
 		res.Class = "unmodelled"
 	case ref.must:
 		res.Class = "must-succeed"
+	case ref.refuse:
+		res.Class = "must-refuse"
 	default:
 		res.Class = "unconstrained"
 	}
@@ -249,6 +293,17 @@ func (s *server) judgeMutation(c Case, m fieldDef, vars map[string]any, gr gqlRe
 				"%s with well-formed arguments and a user attached was answered %v (panic recovered by the server: %q); request %s", c.Mutation, res.Errors, res.Panic, clip(res.Request))
 		}
 		return
+	}
+
+	if ref.refuse {
+		in, _ := vars["input"].(map[string]any)
+		p := in["prefix"]
+		if c.Mutation == "editComment" {
+			p = in["targetPrefix"]
+		}
+		add("c17.user.refused", c.Mutation+":"+ref.refuseClass+":accepted",
+			"%s with prefix %q (%s: it denotes %s of the repository) and a user attached was carried out instead of being refused: %s", c.Mutation, p, ref.refuseClass,
+			map[string]string{"no-match-prefix": "nothing", "ambiguous-prefix": "several bugs / comments", "ambiguous-prefix-same-bug": "several comments of one bug"}[ref.refuseClass], clip(string(gr.Data[m.Name])))
 	}
 
 	// the request was answered without error: what was recorded?
